@@ -196,8 +196,11 @@ def c17_6(ctx):
               unparse(first.value) if first else 'none')
     # every comparison that involves a search directory's path compares two real paths for equality, nothing weaker
     import re as _re
-    defs = {unparse(n.targets[0]): unparse(n.value) for n in walk_no_nested(eng.node) if isinstance(n, ast.Assign) and isinstance(n.targets[0], ast.Name)
-            and isinstance(n.value, ast.Call) and unparse(n.value.func) == 'os.path.realpath'}
+    def _canon(t):
+        # `[os.path.realpath(d) for d in include_dirs][i]` is `os.path.realpath(include_dirs[i])`
+        return _re.sub(r'\[os\.path\.realpath\((\w+)\) for \1 in include_dirs\]\[(\w+)\]', r'os.path.realpath(include_dirs[\2])', t)
+    defs = {unparse(n.targets[0]): _canon(unparse(n.value)) for n in walk_no_nested(eng.node) if isinstance(n, ast.Assign) and isinstance(n.targets[0], ast.Name)
+            and _canon(unparse(n.value)).startswith('os.path.realpath(')}
 
     # names bound to one element of the directory list (loop / comprehension variables over it, its slices or its enumeration)
     elems = set()
@@ -215,11 +218,33 @@ def c17_6(ctx):
         elif _re.fullmatch(r'enumerate\(include_dirs(\[[^\]]*\])?\)', t_it) and isinstance(tg, ast.Tuple) and len(tg.elts) == 2 and isinstance(tg.elts[1], ast.Name):
             elems.add(tg.elts[1].id)
 
+    # lists that hold the real path of every search directory, in order (`[os.path.realpath(d) for d in include_dirs]`), their
+    # elements, and names bound to one of their elements
+    real_lists = set()
+    for n in walk_no_nested(eng.node):
+        if isinstance(n, ast.Assign) and isinstance(n.targets[0], ast.Name) and isinstance(n.value, ast.ListComp) and len(n.value.generators) == 1 \
+                and not n.value.generators[0].ifs and unparse(n.value.generators[0].iter) == 'include_dirs' and isinstance(n.value.generators[0].target, ast.Name) \
+                and unparse(n.value.elt) == f'os.path.realpath({n.value.generators[0].target.id})':
+            real_lists.add(n.targets[0].id)
+    real_elems = set()
+    for n in ast.walk(eng.node):
+        if isinstance(n, (ast.For, ast.comprehension)) and isinstance(n.target, ast.Name) and _re.fullmatch(r'(\w+)(\[[^\]]*\])?', unparse(n.iter)) \
+                and unparse(n.iter).split('[')[0] in real_lists:
+            real_elems.add(n.target.id)
+    for n in walk_no_nested(eng.node):
+        if isinstance(n, ast.Assign) and isinstance(n.targets[0], ast.Name) and isinstance(n.value, ast.Subscript) and unparse(n.value.value) in real_lists \
+                and not isinstance(n.value.slice, ast.Slice):
+            defs[n.targets[0].id] = unparse(n.value)
+
     def _real(e):
         t = defs.get(unparse(e), unparse(e))
         m_ = _re.fullmatch(r'os\.path\.realpath\((.+)\)', t)
-        return bool(m_) and (bool(_re.fullmatch(r'include_dirs\[\w+\]', m_.group(1))) or m_.group(1) in elems)
+        if bool(m_) and (bool(_re.fullmatch(r'include_dirs\[\w+\]', m_.group(1))) or m_.group(1) in elems):
+            return True
+        m_ = _re.fullmatch(r'(\w+)\[\w+\]', t)
+        return (bool(m_) and m_.group(1) in real_lists) or t in real_elems
     cmps = [c for c in ast.walk(eng.node) if isinstance(c, ast.Compare) and any(unparse(x) in defs or 'realpath' in unparse(x) or 'include_dirs[' in unparse(x)
+                                                                                 or unparse(x) in real_elems or unparse(x).split('[')[0] in real_lists
                                                                                  for x in [c.left] + list(c.comparators))]
     ok = len(cmps) >= 1 and all(len(c.ops) == 1 and isinstance(c.ops[0], (ast.Eq, ast.NotEq)) and _real(c.left) and _real(c.comparators[0]) for c in cmps)
     ctx.check(ok, 'dirs:dedup-exact-realpath', eng.site(cmps[0]) if cmps else eng.site(),
@@ -232,7 +257,7 @@ def c17_6(ctx):
         kept = unparse(fin.value.args[0])
     apps = [c for c in ast.walk(eng.node) if isinstance(c, ast.Call) and isinstance(c.func, ast.Attribute) and c.func.attr in ('append', 'add')
             and kept is not None and unparse(c.func.value) == kept]
-    ok = bool(apps) and all(len(c.args) == 1 and unparse(c.args[0]) in defs and defs[unparse(c.args[0])].startswith('os.path.realpath(') for c in apps)
+    ok = bool(apps) and all(len(c.args) == 1 and _real(c.args[0]) for c in apps)
     ctx.check(ok, 'dirs:canonical-path-kept', eng.site(apps[0]) if apps else eng.site(),
               'the directory kept for a group of duplicates is the real path they share, so the paths shown in outputs do not depend on the order or spelling of -I options',
               '; '.join(unparse(c) for c in apps) or 'no recognised collection of kept directories')
